@@ -108,10 +108,14 @@ func positionsFor(c construct) []string {
 		return []string{x, "abs(" + x + ")", "sum(" + x + ")", "topk(100, " + x + ")", "(" + x + ") + m", "m + (" + x + ")",
 			"(" + x + ") * 2", "-(" + x + ")", "(" + x + ")", "clamp_min(" + x + ", 1)", "topk(scalar(" + x + "), m)",
 			"quantile(scalar(" + x + "), m)", "sum by (a) (rate(m[1m])) + (" + x + ")", "timestamp(" + x + ")",
-			"histogram_quantile(0.9, " + x + ")"}
+			"histogram_quantile(0.9, " + x + ")",
+			// ... and as the source of a scalar argument, next to a vector argument that is fine
+			"histogram_quantile(scalar(" + x + "), m)", "clamp_min(m, scalar(" + x + "))", "clamp_max(m, scalar(" + x + "))",
+			"clamp(m, scalar(" + x + "), 5)", "clamp(m, 0, scalar(" + x + "))", "scalar(" + x + ") + m", "m > scalar(" + x + ")"}
 	case parser.ValueTypeScalar:
 		return []string{x, "vector(" + x + ")", "m + (" + x + ")", "(" + x + ") + m", "clamp_min(m, " + x + ")", "topk(" + x + ", m)",
-			"-(" + x + ")", "(" + x + ")", "(" + x + ") + 1", "quantile(" + x + ", m)"}
+			"-(" + x + ")", "(" + x + ")", "(" + x + ") + 1", "quantile(" + x + ", m)",
+			"histogram_quantile(" + x + ", m)", "clamp_max(m, " + x + ")", "clamp(m, " + x + ", 5)", "clamp(m, 0, " + x + ")"}
 	case parser.ValueTypeMatrix:
 		return []string{x, "rate(" + x + ")", "sum_over_time(" + x + ")", "sum(max_over_time(" + x + "))", "(" + x + ")",
 			"quantile_over_time(0.5, " + x + ")", "rate(" + x + ") + m"}
